@@ -36,10 +36,17 @@ class Lock:
         self.f.close()
 
 def build_harness():
-    """go build the harness against /repo's current working tree with the verif tag."""
+    """go build the harness against the repo working tree (default /repo; VERIF_REPO overrides, for
+    self-tests against scratch worktrees) with the verif tag."""
     with Lock("gobuild"):
         shutil.copyfile(os.path.join(REPO, "go.sum"), os.path.join(HARN, "go.sum"))
-        rc, out = sh(["go", "build", "-tags", "verif", "-o", BIN, "."], cwd=HARN, env=GOENV, timeout=900)
+        cmd = ["go", "build", "-tags", "verif", "-o", BIN]
+        if os.path.realpath(REPO) != "/repo":
+            mod = open(os.path.join(HARN, "go.mod")).read().replace("=> /repo", "=> " + os.path.realpath(REPO))
+            open(os.path.join(HARN, "go_alt.mod"), "w").write(mod)
+            shutil.copyfile(os.path.join(REPO, "go.sum"), os.path.join(HARN, "go_alt.sum"))
+            cmd += ["-modfile=go_alt.mod"]
+        rc, out = sh(cmd + ["."], cwd=HARN, env=GOENV, timeout=900)
     return rc, out
 
 def run_translator():
@@ -357,7 +364,7 @@ def main(argv):
         "wall_s": round(time.time() - t0, 2),
         "violations": len(violations),
     }
-    if not replay:
+    if not replay and os.path.realpath(REPO) == "/repo":
         json.dump(ev, open(os.path.join(ROOT, "evidence", pid + ".json"), "w"), indent=1)
     for sig, k, n in known_hits:
         print("KNOWN-FINDING: property=%s %s (%d cases this run; %s)" % (pid, k["what"], n, k["id"]))
